@@ -164,10 +164,12 @@ pub fn run(ctx: &Ctx) {
     }
   });
   ctx.subspace("lunar years 0..9999: month list, month count, leap month, day count vs new-year distance", done, 10000);
-  let leaps = t.l.iter().filter(|l| l.m < 0).count();
-  ctx.outcome("29-day months", t.l.iter().filter(|l| l.days == 29).count() as u64);
-  ctx.outcome("30-day months", t.l.iter().filter(|l| l.days == 30).count() as u64);
-  ctx.outcome("leap months", leaps as u64);
+  if ctx.primary() {
+    let leaps = t.l.iter().filter(|l| l.m < 0).count();
+    ctx.outcome("29-day months", t.l.iter().filter(|l| l.days == 29).count() as u64);
+    ctx.outcome("30-day months", t.l.iter().filter(|l| l.days == 30).count() as u64);
+    ctx.outcome("leap months", leaps as u64);
+  }
   for k in [(2020isize, 4isize), (2020, -4), (2033, -11), (23, 12), (9999, 12)] {
     if let Some(p) = t.pos(k.0, k.1) {
       let l = t.l[p];
